@@ -177,7 +177,7 @@ def run(report, db, tier):
     c10.encryption_arm(sub, db, M, P, react, arms)
     R5 = report.rule('R18.5', 'wrappers are single pass-through updates '
                      '(continuous stream, any segmentation)')
-    shared.wrapper_passthrough(report, R5, db)
+    shared.wrapper_passthrough_ps(report, R5, db)
     R6 = report.rule('R18.6', 'nothing reads the connection socket through '
                      'recv(): the decryptor shared by both wrappers cannot '
                      'be desynchronised')
